@@ -232,7 +232,7 @@ fn gen(rng: &mut Rng, tier: &str) -> Vec<(String, Value)> {
         }
     }
     // (f) histories of 2-3 runs on one cache
-    let nhist = if thorough { 200 } else { 42 };
+    let nhist = if thorough { 210 } else { 49 };
     for i in 0..nhist {
         let mut r = rng.fork();
         let mut s = loop { let s = make_world(&mut r, 1 + (i % 2), 2, 3, 2); if aspa_customers_unique(&s.spec) && s.spec.cas.len() >= 2 { break s } };
@@ -240,7 +240,7 @@ fn gen(rng: &mut Rng, tier: &str) -> Vec<(String, Value)> {
         let target = r.pick(&ids).clone();
         s.push_version(&target);
         let class;
-        match i % 6 {
+        match i % 7 {
             0 => { // a new ROA appears in version 2
                 class = "history.new-object";
                 add_v2_roa(&mut s, &target, &mut r);
@@ -271,6 +271,21 @@ fn gen(rng: &mut Rng, tier: &str) -> Vec<(String, Value)> {
                 if let Some(n) = objs.first().cloned() {
                     if r.chance(1, 2) { s.version_mut(&target, 1).objects.retain(|o| o.name != n); }
                     else if !matches!(s.object_mut(&target, 1, &n).kind, ObjKind::Other { .. }) { s.object_mut(&target, 1, &n).faults.push(Fault::Revoked); }
+                }
+            }
+            5 => { // version 2 is incomplete AND its CRL revokes an object the stored version carries: the stored
+                   // version is what counts, with its own CRL, so the object stays
+                class = "history.incomplete-update-revoking";
+                add_v2_roa(&mut s, &target, &mut r);
+                let names: Vec<String> = s.spec.ca(&target).unwrap().versions[0].objects.iter()
+                    .filter(|o| !matches!(o.kind, ObjKind::Other { .. })).map(|o| o.name.clone()).collect();
+                let all: Vec<String> = s.spec.ca(&target).unwrap().versions[1].objects.iter().map(|o| o.name.clone()).collect();
+                if let Some(revoked) = names.first().cloned() {
+                    s.object_mut(&target, 1, &revoked).faults.push(Fault::Revoked);
+                    let others: Vec<String> = all.into_iter().filter(|n| *n != revoked).collect();
+                    if let Some(n) = others.last().cloned() {
+                        s.object_mut(&target, 1, &n).faults.push(if r.chance(1, 2) { Fault::Missing } else { Fault::HashMismatch });
+                    }
                 }
             }
             _ => { // a fault only in version 1, repaired in version 2
